@@ -5,6 +5,8 @@
 //   bnd  w n nm via B A        T => out | -1     (-1: the code threw)
 //   zo   w n nm via rho        T => out
 //   hwt  w n nm via h          T => out
+//   hwtw w n nm via h          T' => out         same creator at degree > 64; T' = <#requests> (<len in 64-bit words> <words…>)…
+//                                                (the served bytes read as little-endian words: 8x fewer tokens)
 //   gau  w n nm via amp noise… => out           noise = what getNoise wrote (signed limbs), same tape
 //   cval w n nm via v red => out ; clist w n nm via red size vals… => out|-1 ; cmpz w n nm via size vals… => out|-1
 //   umask w cm => mask                          mask of set(uniform) extracted bit by bit from the real code
@@ -13,6 +15,8 @@
 #include <nfl.hpp>
 #include <gmpxx.h>
 #include <memory>
+#include <set>
+#include <algorithm>
 #include <stdexcept>
 
 using namespace vh;
@@ -43,6 +47,22 @@ static void print_tape() {
   for (auto& r : tp::served) {
     printf(" %zu", r.size());
     for (uint8_t b : r) printf(" %u", (unsigned)b);
+  }
+}
+
+static bool served_in_words() {
+  for (auto& r : tp::served) if (r.size() % 8) return false;
+  return true;
+}
+static void print_tape_words() {
+  printf(" %zu", tp::served.size());
+  for (auto& r : tp::served) {
+    printf(" %zu", r.size() / 8);
+    for (size_t i = 0; i + 8 <= r.size(); i += 8) {
+      uint64_t x = 0;
+      for (int b = 7; b >= 0; b--) x = (x << 8) | r[i + b];
+      printf(" %llu", (unsigned long long)x);
+    }
   }
 }
 
@@ -219,6 +239,24 @@ template <class P> static void zo_line(unsigned rho, std::vector<uint8_t> const&
 }
 
 // --------------------------------------------------------------------------------------------- hwt
+// run the real creator on a script of 64-bit words (padded to whole requests of h words, then the sign request)
+template <class P> static void hwt_emit(Rng& g, unsigned h, std::vector<uint64_t>& words) {
+  // the code reads h words per request; what is left of the last index request is discarded
+  while (words.size() % h) words.push_back(g.next());
+  for (unsigned j = 0; j < h; j++) words.push_back(g.next());  // the fresh request for the signs
+  std::vector<uint8_t> s;
+  s.reserve(words.size() * 8);
+  for (uint64_t x : words) push_word<uint64_t>(s, x);
+  tp::load(s);
+  int via = next_via();
+  auto q = create<P>(via, nfl::hwt_dist(h));
+  const bool wf = P::degree > 64 && served_in_words();
+  head<P>(wf ? "hwtw" : "hwt", via);
+  printf(" %u", h);
+  if (wf) print_tape_words(); else print_tape();
+  tail(q);
+}
+
 // script for one reduced index tuple idx[k-h] in [0,k], with words in the rejection zone sprinkled in
 template <class P> static void hwt_line(Rng& g, unsigned h, std::vector<size_t> const& idx, bool with_rejects) {
   const size_t n = P::degree;
@@ -233,17 +271,71 @@ template <class P> static void hwt_line(Rng& g, unsigned h, std::vector<size_t> 
     uint64_t q = g.below(4) == 0 ? (g.below(2) ? R - 1 : 0) : g.below(R);
     words.push_back(idx[k - h] + (k + 1) * q);
   }
-  // the code reads h words per request; what is left of the last index request is discarded
-  while (words.size() % h) words.push_back(g.next());
-  for (unsigned j = 0; j < h; j++) words.push_back(g.next());  // the fresh request for the signs
-  std::vector<uint8_t> s;
-  for (uint64_t x : words) push_word<uint64_t>(s, x);
-  tp::load(s);
-  int via = next_via();
-  auto q = create<P>(via, nfl::hwt_dist(h));
-  head<P>("hwt", via);
-  printf(" %u", h);
-  print_tape(); tail(q);
+  hwt_emit<P>(g, h, words);
+}
+
+// LARGE DEGREES.  A scripted tape that makes the accept/reject decision of single words observable in the positions.
+// At a spread of PROBE steps k (first, last, 2^j-2..2^j+1, random ones, and among 256 random candidates the steps
+// with the longest and the shortest incomplete top block) exactly one boundary word of THAT step is fed:
+//   in the rejection zone [M_k, 2^64) (M_k = floor((2^64-1)/(k+1))*(k+1)):  M_k, M_k+1, 2^64-1, 2^64-2^j, 2^64-2^j-1,
+//   the middle of the zone, a random word of the zone  -- followed, at the same step, by a RECORDER;
+//   below it: M_k-1 (last accepted word, index k), M_k-(k+1) (first word of the last complete block, index 0), and the
+//   words 2^64-2^j(-1) when they are below M_k                          -- followed, at the next step, by a RECORDER.
+// A recorder is the word j (< h): accepted at every step, it stores the CURRENT step number in slot j of the
+// reservoir, each slot being used once (slots 0..7 are left free: a wrongly accepted word M_k+i lands in slot i).
+// All other steps get a filler word in [h,k] (index >= h whatever the step: no effect on the reservoir).  So the
+// sorted positions list the step at which every recorder was consumed: one word accepted (or rejected) against the
+// rule shifts all later recorders by one, and the first shifted recorder pins the step.
+static inline uint64_t hwt_M(uint64_t k) { return UINT64_MAX / (k + 1) * (k + 1); }
+
+template <class P> static void hwt_probe_line(Rng& g, unsigned h, unsigned variant) {
+  const size_t n = P::degree;
+  std::set<size_t> K;
+  auto add = [&](uint64_t k) { if (k >= h && k < n) K.insert((size_t)k); };
+  add(h); add(h + 1); add(n - 1); add(n - 2);
+  for (int j = 1; j < 40; j++) for (int d = -2; d <= 1; d++) add((1ULL << j) + d);
+  if (n > h) {
+    for (int i = 0; i < 48; i++) add(h + g.below(n - h));
+    // the longest / shortest incomplete top blocks among 256 random steps of the upper half
+    std::vector<std::pair<uint64_t, size_t>> c;
+    for (int i = 0; i < 256; i++) { size_t k = (size_t)(n - 1 - g.below((n - h + 1) / 2)); if (k >= h) c.push_back({UINT64_MAX - hwt_M(k), k}); }
+    std::sort(c.begin(), c.end());
+    for (size_t i = 0; i < c.size() && i < 8; i++) { add(c[i].second); add(c[c.size() - 1 - i].second); }
+  }
+  const size_t s0 = h > 16 ? 8 : 0;
+  size_t rec = 0, cnt = variant;
+  bool pending = false;
+  std::vector<uint64_t> words;
+  words.reserve(n + 512);
+  auto recorder = [&]() { words.push_back(s0 + (rec++ % (h - s0))); };
+  for (size_t k = h; k < n; k++) {
+    const uint64_t M = hwt_M(k), top = UINT64_MAX - M;  // zone = [M, M+top]
+    if (K.count(k)) {
+      uint64_t x = 0;
+      const int j = 1 + (int)g.below(24);
+      switch (cnt++ % 11) {
+        case 0: x = M; break;
+        case 1: x = M + (top ? 1 : 0); break;
+        case 2: x = UINT64_MAX; break;
+        case 3: x = UINT64_MAX - 65535; break;            // 2^64-2^16
+        case 4: x = UINT64_MAX - 65536; break;            // 2^64-2^16-1
+        case 5: x = M + top / 2; break;
+        case 6: x = UINT64_MAX - (1ULL << j) + 1; break;  // 2^64-2^j
+        case 7: x = UINT64_MAX - (1ULL << j); break;      // 2^64-2^j-1
+        case 8: x = M + g.below(top + 1); break;
+        case 9: x = M - 1; break;
+        default: x = M - (k + 1); break;
+      }
+      words.push_back(x);
+      if (x >= M) { recorder(); pending = false; }  // rejected: the recorder is this step's accepted word
+      else pending = true;                          // accepted: the recorder comes with the next step
+    } else if (pending) {
+      recorder(); pending = false;
+    } else {
+      words.push_back(h + g.below(k - h + 1));
+    }
+  }
+  hwt_emit<P>(g, h, words);
 }
 
 template <class P> static void hwt_exhaustive(Rng& g, unsigned h) {
@@ -387,8 +479,9 @@ int main() {
 
   // moduli used by the lines below (comment lines: read by the python cross-checks, not by the driver)
   printf("# P 16"); for (size_t i = 0; i < 2; i++) printf(" %llu", (unsigned long long)nfl::params<uint16_t>::P[i]); printf("\n");
-  printf("# P 32"); for (size_t i = 0; i < 5; i++) printf(" %llu", (unsigned long long)nfl::params<uint32_t>::P[i]); printf("\n");
-  printf("# P 64"); for (size_t i = 0; i < 5; i++) printf(" %llu", (unsigned long long)nfl::params<uint64_t>::P[i]); printf("\n");
+  printf("# P 32"); for (size_t i = 0; i < nfl::params<uint32_t>::kMaxNbModuli; i++) printf(" %llu", (unsigned long long)nfl::params<uint32_t>::P[i]); printf("\n");
+  printf("# P 64"); for (size_t i = 0; i < nfl::params<uint64_t>::kMaxNbModuli; i++) printf(" %llu", (unsigned long long)nfl::params<uint64_t>::P[i]); printf("\n");
+  if (getenv("SAMPLERS_PRINT_P")) return 0;  // the python cross-checks ask for the moduli only
 
   // ---- masks of every table row (1293 rows)
   umask_all<nfl::poly<uint16_t, 16, nfl::params<uint16_t>::kMaxNbModuli>>();
@@ -463,6 +556,55 @@ int main() {
   for (unsigned h : {1u, 2u, 7u, 8u, 9u, 31u, 63u, 64u}) hwt_random<nfl::poly<uint64_t, 64, 2>>(g, h, th ? 40 : 6);
   for (unsigned h : {1u, 3u, 16u}) hwt_random<nfl::poly<uint16_t, 16, 2>>(g, h, 6);
   for (unsigned h : {1u, 5u, 32u}) hwt_random<nfl::poly<uint32_t, 32, 2>>(g, h, 6);
+
+  // ---- LARGE PARAMETERS (own generator: the lines above stay what they were).  Fixed weight at the largest degrees of
+  // every limb (late reservoir steps, k >= 2^16 only exists for uint64_t at degree >= 2^17), probe tapes + random tapes
+  {
+    Rng gl(seed * 7919 + 13);
+    typedef nfl::poly<uint64_t, 131072, 1> P17;
+    hwt_probe_line<P17>(gl, 256, (unsigned)seed);
+    hwt_probe_line<P17>(gl, 300, (unsigned)seed + 4);
+    hwt_probe_line<P17>(gl, 1, (unsigned)seed + 7);
+    hwt_probe_line<P17>(gl, 40000, (unsigned)seed + 2);
+    hwt_random<P17>(gl, 64, 1);
+    hwt_probe_line<nfl::poly<uint64_t, 65536, 1>>(gl, 256, (unsigned)seed + 1);
+    hwt_random<nfl::poly<uint64_t, 65536, 1>>(gl, 3, 1);
+    hwt_probe_line<nfl::poly<uint64_t, 4096, 2>>(gl, 64, (unsigned)seed + 3);
+    hwt_probe_line<nfl::poly<uint64_t, 4096, 2>>(gl, 4095, (unsigned)seed + 5);
+    hwt_random<nfl::poly<uint64_t, 4096, 2>>(gl, 1000, 1);
+    hwt_probe_line<nfl::poly<uint32_t, 32768, 1>>(gl, 128, (unsigned)seed + 6);
+    hwt_probe_line<nfl::poly<uint16_t, 512, 2>>(gl, 16, (unsigned)seed + 8);
+    hwt_random<nfl::poly<uint16_t, 512, 2>>(gl, 100, 2);
+    if (th) {
+      typedef nfl::poly<uint64_t, 1048576, 1> P20;
+      for (unsigned v = 0; v < 3; v++) hwt_probe_line<P20>(gl, 512, (unsigned)seed + v);
+      hwt_probe_line<P20>(gl, 1, (unsigned)seed + 9);
+      hwt_random<P20>(gl, 17, 1);
+      for (unsigned v = 0; v < 11; v++) hwt_probe_line<P17>(gl, 256 + v, v);
+      hwt_probe_line<P17>(gl, 131071, 1);
+      hwt_probe_line<P17>(gl, 131072, 1);   // no reservoir step: 2^17 sign words in one request
+      hwt_random<P17>(gl, 65536, 1);
+    }
+    // uniform: every row of the 32- and 64-bit tables as a modulus (boundary words of THAT row), and the largest degrees
+    uni_boundary<nfl::poly<uint32_t, 4, nfl::params<uint32_t>::kMaxNbModuli>>(gl, 4);
+    uni_boundary<nfl::poly<uint64_t, 4, nfl::params<uint64_t>::kMaxNbModuli>>(gl, 4);
+    uni_boundary<nfl::poly<uint16_t, 512, 2>>(gl, 1);
+    uni_boundary<nfl::poly<uint32_t, 32768, 1>>(gl, 1);
+    uni_boundary<nfl::poly<uint64_t, 16384, 2>>(gl, 1);
+    // bounded: bounds next to 2^61 / 2^29 / 2^13 at large degrees
+    bnd_boundary<nfl::poly<uint64_t, 16384, 2>>(gl, (1ULL << 61) - 1, 1, 1);
+    bnd_boundary<nfl::poly<uint64_t, 16384, 2>>(gl, (1ULL << 60) + 1, 3, 1);
+    bnd_boundary<nfl::poly<uint32_t, 32768, 1>>(gl, (1ULL << 29) - 1, 1, 1);
+    bnd_boundary<nfl::poly<uint16_t, 512, 2>>(gl, 4097, 3, 1);
+    // ternary at the largest degree of every limb
+    {
+      std::vector<unsigned> rhos = {0x7F, (unsigned)gl.below(256)};
+      zo_family<nfl::poly<uint16_t, 512, 2>>(gl, rhos, 1);
+      zo_family<nfl::poly<uint32_t, 32768, 1>>(gl, rhos, 1);
+      zo_family<nfl::poly<uint64_t, 131072, 1>>(gl, {0x7F}, 1);
+      if (th) zo_family<nfl::poly<uint64_t, 1048576, 1>>(gl, rhos, 1);
+    }
+  }
 
   // ---- gaussian (real FastGaussianNoise, scripted tape; the noise it produced is passed to the model)
   gau_lines<nfl::poly<uint16_t, 16, 2>>(g, 3.0, {1, 2, 3, 1024, 4096}, th ? 12 : 4);
